@@ -26,7 +26,7 @@ func init() {
 
 func runC03(c *core.Ctx) {
 	c.Rule("C03.skeleton", "A1/A2/A3: windowByTime.Point and .Barrier equal the reference table of (every==0, due, align) → ordered effects insert/purge(bound, inclusive)/batch(T)/nextEmit stores, with the purge bound = X−period for the very X given to batch, X = the message time (every==0) or the old nextEmit (otherwise), inclusive = false/true respectively; Barrier = Point without insert")
-	c.Rule("C03.first", "A1: newWindowByTime's first emit time: fillPeriod ⇒ t+period (aligned: truncated to every, plus every if not after t+period); else t+every (aligned: truncated to every); the literal stores period/every/align/fillPeriod under their own names")
+	c.Rule("C03.first", "A1: newWindowByTime's first emit time: fillPeriod ⇒ t+period (aligned: the first multiple of every that is not before t+period — truncated to every, plus every only if the truncated time is before t+period); else t+every (aligned: truncated to every); the literal stores period/every/align/fillPeriod under their own names")
 	c.Rule("C03.roles", "A7: WindowNode.newWindow passes (Period, Every, AlignFlag, FillPeriodFlag) resp. (PeriodCount, EveryCount, FillPeriodFlag) to the constructor parameters of the same role")
 	c.Rule("C03.confine", "A6: windowTimeBuffer.{window,start,stop,size} are assigned only in insert and purge; windowByCount.{buf,start,stop,size,count,nextEmit} only in its Point (and the constructor literal); both points() build their result with make (a fresh slice)")
 	c.Rule("C03.grow", "A3: when the time ring grows while wrapped, the older segment window[start:] is copied to the front of the new array and the newer segment window[:stop] behind it (time order is what purge relies on)")
@@ -168,6 +168,8 @@ func c03First(c *core.Ctx, root *packages.Package) {
 				return "fill", false
 			case strings.HasSuffix(a.Key, ".After("+t+".Add("+period+"))"):
 				return "after", false
+			case strings.HasSuffix(a.Key, ".Before("+t+".Add("+period+"))"):
+				return "before", false
 			}
 			return "", false
 		}}
@@ -183,7 +185,7 @@ func c03First(c *core.Ctx, root *packages.Package) {
 		}
 		return true
 	})
-	an.CheckTable(c, "C03.first", "newWindowByTime", paths, an.Table{Atoms: []string{"fill", "align", "after"},
+	an.CheckTable(c, "C03.first", "newWindowByTime", paths, an.Table{Atoms: []string{"fill", "align", "before", "after"},
 		Outcome: func(p *an.Path) string {
 			if lit == nil {
 				return "?"
@@ -203,10 +205,14 @@ func c03First(c *core.Ctx, root *packages.Package) {
 			switch {
 			case a["fill"] && !a["align"]:
 				return "t+P"
-			case a["fill"] && a["after"]:
-				return "t+P↓E"
-			case a["fill"]:
+			case a["fill"] && a["before"] && a["after"]:
+				return "*" // x < t+P and x > t+P: no such input
+			case a["fill"] && a["before"]:
+				// F119: the first emit is the first multiple of every that is not before t+period: the truncated time if it
+				// is t+period itself (the period is full then), one every later only if truncation went below t+period
 				return "t+P↓E+E"
+			case a["fill"]:
+				return "t+P↓E"
 			case a["align"]:
 				return "t+E↓E"
 			}
